@@ -1,0 +1,20 @@
+//! Verification hooks (cargo feature `verif`, off by default).
+//!
+//! Read-only access for the out-of-tree property checks: re-exports of
+//! internal items and a statistics probe. Nothing here changes behaviour.
+
+pub use crate::codec::{Codec, SendError, UserError};
+pub use crate::hpack::{BytesStr, Decoder, DecoderError, Encoder, Header, NeedMore};
+pub use crate::proto::{VerifProbe, VerifStats};
+
+pub mod frame {
+    pub use crate::frame::{
+        Continuation, Data, Error, Frame, GoAway, Head, Headers, Kind, Ping, Priority, Pseudo,
+        PushPromise, Reason, Reset, Settings, StreamDependency, StreamId, WindowUpdate,
+        HEADER_LEN,
+    };
+}
+
+pub mod huffman {
+    pub use crate::hpack::huffman::{decode, encode};
+}
